@@ -244,7 +244,20 @@ fn fuzz_line(r: &mut Rng, s: &mut String) {
 
 /// a plausible record line (more often valid)
 fn record_line(r: &mut Rng, s: &mut String) {
-    let owner = *r.pick(&["", "", "@", "www", "a.b", "*", "*.w", "ns.example.com.", "x.", "IN", "300", "A", "é"]);
+    let mut odd_owner = String::new();
+    let owner: &str = if r.chance(1, 4) {
+        // an odd owner on an otherwise plausible line (the owner is looked at after type and RDATA):
+        // escapes that become non-ASCII characters, dots and stars, at every position
+        // (seeded change C17-7 sliced the owner text by bytes: `a\200` panicked)
+        for _ in 0..r.range(1, 4) {
+            odd_owner.push_str(r.pick(&[
+                "a", "*", ".", "\\200", "\\255", "\\128", "\\127", "\\046", "\\.", "\\*", "é", "@", "-", "\\\\", "x",
+            ]));
+        }
+        &odd_owner
+    } else {
+        r.pick(&["", "", "@", "www", "a.b", "*", "*.w", "ns.example.com.", "x.", "IN", "300", "A", "é"])
+    };
     s.push_str(owner);
     s.push(' ');
     let (ttl, class) = (*r.pick(&["", "300", "5", "0", "4294967295", "x"]), *r.pick(&["", "IN", "IN", "CH"]));
